@@ -76,7 +76,7 @@ class Ctx:
         if env:
             e.update(env)
         meta = os.path.join(d, "meta")
-        cmd = ["timeout", str(timeout), "tlc", "-workers", str(workers), "-metadir", meta, "-config", cfg] + (extra or []) + [module]
+        cmd = ["timeout", str(timeout), "tlc", "-noGenerateSpecTE", "-workers", str(workers), "-metadir", meta, "-config", cfg] + (extra or []) + [module]
         t = time.time()
         p = subprocess.run(cmd, cwd=d, env=e, capture_output=True, text=True)
         out = p.stdout + p.stderr
